@@ -14,7 +14,7 @@
      number of keys, duplicates included); publish(keys, seq, count, min(oldest_active, start));
      then either success (the batch becomes visible: visible := max(visible, seq+count-1), the
      transaction closes and leaves the tracker; its snapshot stays registered until End), or a
-     WAL/apply failure: rollback(keys, seq+count-1); the allocated sequence numbers stay consumed
+     WAL/apply failure: rollback(keys, seq+count-1) (restores the stamps this publish overwrote); the allocated sequence numbers stay consumed
      and — commit.rs: the failed batch is marked applied and drained by publish() like any other —
      visible ALSO advances to seq+count-1.  The transaction stays open and registered after any
      error (Conflict, Retry, failure).
@@ -23,7 +23,7 @@
      oracle reset_for_restore(max).  Open transactions stay as they are.
    Ghost component `c_done`: the successful commits (stamp, keys), newest first; a restore keeps
    the ones with stamp <= max (the restored store contains exactly those).
-   `fixed = true` selects the repaired rollback (Oracle.rollback_restore), `false` the crate's. *)
+   (Since the fix of F13 rollback puts the overwritten stamp back; see Conc/Oracle.v.) *)
 From Coq Require Import List NArith Arith Bool.
 From SKV Require Import Params Base.Lex Conc.Oracle.
 Import ListNotations.
@@ -87,7 +87,6 @@ Definition oldest_active (s : cstate) : N :=
 Section CommitSeq.
 Variable fp : bytes -> N.
 Variable G : N.
-Variable fixed : bool.
 
 Definition commit_core (s : cstate) (id : N) (t : tx) (keys : list bytes) (fail : bool)
   : cstate * outcome * list ocall :=
@@ -99,12 +98,11 @@ Definition commit_core (s : cstate) (id : N) (t : tx) (keys : list bytes) (fail 
     let count := N.of_nat (length keys) in
     let seq := c_next s in
     let oldest := N.min (oldest_active s) start in
-    let u := publish_undo fp (c_orc s) keys in
     let o1 := publish fp G (c_orc s) keys seq count oldest in
     let stamp := stamp_of seq count in
     if fail then
       ({| c_txs := c_txs s; c_visible := N.max (c_visible s) stamp; c_next := seq + count;
-          c_orc := if fixed then rollback_restore o1 u stamp else rollback fp o1 keys stamp;
+          c_orc := rollback fp o1 keys stamp;
           c_done := c_done s |},
        OFailed, [CCheck keys start; CPublish keys seq count oldest; CRollback keys stamp])
     else
